@@ -66,6 +66,17 @@ type Spec struct {
 	SameActions bool
 }
 
+// precLineNumber: the explicit number of a named token that is declared by a precedence
+// line only (it is written there, after the name); 0 otherwise.
+func (s *Spec) precLineNumber(ref string) int {
+	for _, t := range s.Toks {
+		if t.Name != "" && t.Name == ref && t.Decl == "prec" {
+			return t.Num
+		}
+	}
+	return 0
+}
+
 func (s *Spec) HasTag(t string) bool {
 	for _, x := range s.Tags {
 		if x == t {
@@ -248,7 +259,15 @@ func (s *Spec) Render(o RenderOpts) string {
 		sb.WriteString("\n")
 	}
 	for _, p := range s.Prec {
-		sb.WriteString("%" + p.Assoc + " " + strings.Join(p.Syms, " ") + "\n")
+		sb.WriteString("%" + p.Assoc)
+		for _, sym := range p.Syms {
+			sb.WriteString(" " + sym)
+			if n := s.precLineNumber(sym); n != 0 {
+				// yacc: a token number may follow the name on a precedence line
+				fmt.Fprintf(&sb, " %d", n)
+			}
+		}
+		sb.WriteString("\n")
 	}
 	// %type lines grouped by tag
 	byTag := map[string][]string{}
@@ -684,6 +703,12 @@ func Fixed() []*Spec {
 		Toks:  []Tok{lit('a'), lit('c'), lit('d'), lit('e'), {Char: '+', Decl: "prec"}},
 		Prec:  []PrecLine{{"left", []string{"'+'"}}},
 		Rules: rules("top: 'a' item 'd' | 'a' list 'e'", "item: 'c' %prec '+'", "list: pair | list '+' pair", "pair: 'c' | 'c' '+' 'c'")})
+	// token numbers written on a precedence line (yacc: %left NAME number ...)
+	add(&Spec{Name: "prec_numbers", Tags: []string{"conflict-resolved"},
+		Toks:  []Tok{named("NUM", 410), {Name: "PLUS", Num: 420, Decl: "prec"}, {Name: "MINUS", Decl: "prec"}, {Name: "TIMES", Num: 430, Decl: "prec"}},
+		Prec:  []PrecLine{{"left", []string{"PLUS", "MINUS"}}, {"left", []string{"TIMES"}}},
+		Rules: rules("E: E PLUS E | E MINUS E | E TIMES E | NUM"),
+		NTTag: allVal("E")})
 	// names that differ only in case; automatic token numbers
 	add(&Spec{Name: "case_names", Tags: []string{"lalr1"},
 		Toks:  []Tok{named("NUM", 0), named("List", 0), lit(',')},
@@ -996,10 +1021,15 @@ func (s *Spec) Pieces() (pieces, seps []string) {
 	for _, p := range s.Prec {
 		add("%"+p.Assoc, " ")
 		for i, sym := range p.Syms {
-			if i+1 < len(p.Syms) {
+			sep := " "
+			if i+1 >= len(p.Syms) {
+				sep = "\n"
+			}
+			if n := s.precLineNumber(sym); n != 0 {
 				add(sym, " ")
+				add(fmt.Sprint(n), sep)
 			} else {
-				add(sym, "\n")
+				add(sym, sep)
 			}
 		}
 	}
@@ -1108,8 +1138,7 @@ func RandomRich(seed int64, n int) []*Spec {
 					k++
 					pl.Syms = append(pl.Syms, t.Ref())
 					if t.Tag == "" && rng.Intn(2) == 0 {
-						t.Decl = "prec" // declared by the precedence line only (no number can be given there)
-						t.Num = 0
+						t.Decl = "prec" // declared by the precedence line only (an explicit number is written there)
 					}
 				}
 				s.Prec = append(s.Prec, pl)
